@@ -162,6 +162,8 @@ impl TaskCtx {
         while g.turn != Some(self.id) {
             g = cv.wait(g).unwrap();
         }
+        // whatever the task does next follows a schedule point
+        deadpool::verif::arm();
         g.cmd[self.id]
     }
     fn finish(&self, y: Yield) {
